@@ -96,7 +96,14 @@ class WeightPatch:
 def run_model(family, inputs, chunk=200):
     """Run the extracted model on a list of integer inputs; returns list of int lists."""
     lines = [' '.join(str(x) for x in [family] + list(inp)) for inp in inputs]
-    p = subprocess.run([SIMMODEL], input='\n'.join(lines) + '\n', capture_output=True, text=True, check=True)
+    def _big_stack():
+        # list append/map in the extracted code are not tail-recursive; long event traces need a deep stack
+        import resource
+        try:
+            resource.setrlimit(resource.RLIMIT_STACK, (resource.RLIM_INFINITY, resource.RLIM_INFINITY))
+        except (ValueError, OSError):
+            pass
+    p = subprocess.run([SIMMODEL], input='\n'.join(lines) + '\n', capture_output=True, text=True, check=True, preexec_fn=_big_stack)
     outs = p.stdout.split('\n')
     res = []
     for i in range(len(inputs)):
